@@ -74,10 +74,11 @@ type Result struct {
 	Found    bool      `json:"found,omitempty"`
 	Fired    []string  `json:"fired,omitempty"`
 	Done     bool      `json:"done"`
-	Created  int       `json:"created,omitempty"` // 1 + id of the set this call created (0: none)
-	How      string    `json:"how,omitempty"`     // new | function-form | clone
-	Handle   string    `json:"handle,omitempty"`  // name of the new set's root handle
-	Exists   bool      `json:"exists,omitempty"`  // execution calls: the target is a member of the set
+	Created  int       `json:"created,omitempty"`  // 1 + id of the set this call created (0: none)
+	How      string    `json:"how,omitempty"`      // new | function-form | clone
+	Handle   string    `json:"handle,omitempty"`   // name of the new set's root handle
+	Exists   bool      `json:"exists,omitempty"`   // execution calls: the target is a member of the set
+	Complete bool      `json:"complete,omitempty"` // Clone: every member of the parent is a member of the clone
 	Subs     []*Result `json:"subs,omitempty"`
 }
 
@@ -792,6 +793,18 @@ func (w *World) do(op *Op, res *Result) {
 				}
 				w.sets[op.New] = h
 				res.Created, res.How, res.Handle = op.New+1, "clone", h.Name()
+				// Which members did Clone carry over?  (Templates declared
+				// with New and never parsed are not.)
+				for _, x := range c.Templates() {
+					res.Names = append(res.Names, x.Name())
+				}
+				sort.Strings(res.Names)
+				var pn []string
+				for _, x := range t.Templates() {
+					pn = append(pn, x.Name())
+				}
+				sort.Strings(pn)
+				res.Complete = strings.Join(pn, "\x00") == strings.Join(res.Names, "\x00")
 			}
 			res.Target = c.Name()
 		}
